@@ -787,6 +787,18 @@ func (x *Exec) specCall(c *ast.CallExpr, env *SpecEnv) TV {
 			}
 		}
 		panic("spec: len() of " + exprStr(c))
+	case "nolocks":
+		var cs []Term
+		for _, l := range x.lockClasses() {
+			cs = append(cs, tNot(x.heldTerm(env.st, l)))
+		}
+		return TV{V: tAnd(cs...), T: boolT}
+	case "didLock":
+		return TV{V: x.getHeap(env.st, x.didLockKey(x.specLockClass(c.Args[0], env))), T: boolT}
+	case "atLock", "atUnlock":
+		n := *env
+		n.st = x.shadowState(env.st, strings.ToLower(id.Name)+":")
+		return x.specValue(c.Args[0], &n)
 	case "held":
 		return TV{V: x.heldTerm(env.st, x.specLockClass(c.Args[0], env)), T: boolT}
 	case "token":
@@ -797,8 +809,13 @@ func (x *Exec) specCall(c *ast.CallExpr, env *SpecEnv) TV {
 		ch := arg(0).V.(Term)
 		return TV{V: tSelect(x.getHeap(env.st, x.chKey("chCap", x.idxSort())).(Term), ch), T: types.Typ[types.Int]}
 	case "hist":
-		ch := arg(0).V.(Term)
-		return TV{V: tSelect(x.getHeap(env.st, x.chKey("chHist", sortUnint("Hist"))).(Term), ch)}
+		cv := arg(0)
+		ch := cv.V.(Term)
+		ct, ok := cv.T.Underlying().(*types.Chan)
+		if !ok {
+			panic("spec: hist() of a non-channel")
+		}
+		return TV{V: tSelect(x.getHeap(env.st, x.chKey("chHist:"+typeKey(ct.Elem()), sortUnint("Hist"))).(Term), ch)}
 	case "snoc":
 		h := arg(0).V.(Term)
 		v := arg(1)
@@ -850,6 +867,15 @@ func (x *Exec) specCall(c *ast.CallExpr, env *SpecEnv) TV {
 	case "errIs":
 		a, b := arg(0).V.(Term), arg(1).V.(Term)
 		return TV{V: tOr(tAnd(tNe(a, tErrNil), mk(sortBool, "errIs", a, b)), tEq(a, b)), T: boolT}
+	case "errno":
+		v := arg(0)
+		var t Term
+		if cv, ok := v.V.(ConstV); ok {
+			t = x.constToSort(cv, sortBV(64))
+		} else {
+			t = v.V.(Term)
+		}
+		return TV{V: x.errnoOf(t)}
 	case "unchanged":
 		n := *env
 		n.st = env.old
